@@ -54,7 +54,7 @@ class Data2DPCK(Sized, BuildWriteable):
     def nBytes(self):
         nFrames, nCameras = self.data.shape
         return 2 * nCameras * nFrames + sum(
-            self.data[i, j].nbytes
+            len(self.data[i, j]) * VEC2F.btype.itemsize
             for i in range(nFrames)
             for j in range(nCameras)
             if self.data[i, j] is not None
